@@ -1,13 +1,12 @@
 /-
 Model of the squashed unpacker (C06): `unpack.go` — `unpack` after fix 590c924e (entries whose joined, cleaned
 path is not inside the target directory are skipped before anything is created), `pathOutsideBaseDirectory`,
-`UnpackSquashedFromTarball`'s three passes — and `symlink.go` — `TargetOutsideRoot` (lexical), `RemoveObsoleteSymlinks` —
+`UnpackSquashedFromTarball`'s three passes, directory entries created (fix <P7>) — and `symlink.go` — `TargetOutsideRoot` (lexical), `RemoveObsoleteSymlinks` —
 over a POSIX-like file system state.
 
 The world is a sandbox directory `R` (the root `[]` of every path here); the unpack target is the directory `D`
 inside it.  The operating system is modelled by: physical path resolution (`resolve`: symbolic links followed in every
-component, `..` applied to the physical directory), `os.Lstat`, `os.Stat`, `os.MkdirAll` (Go's algorithm: Stat fast
-path, lexical parent first, then Mkdir), `os.WriteFile`, `os.Symlink`, `os.Remove`, `filepath.EvalSymlinks`,
+component, `..` applied to the physical directory), `os.Lstat`, `os.Stat`, `os.Mkdir`, `os.WriteFile`, `os.Symlink`, `os.Remove`, `filepath.EvalSymlinks`,
 `filepath.WalkDir` (lexical order, links not followed).  An absolute link target is stored relative to `D`
 (`filepath.Join(dir, target)` always lies below `dir`; the directories above `D` are plain directories).
 -/
@@ -95,36 +94,34 @@ def lstatOk (D : Path) (s : FS) (rel : List String) : Bool :=
     | .error _ => false
     | .ok pp => s.get pp == some .dir && !tooLong name && (s.get (pp ++ [name])).isSome
 
-/-- `os.Mkdir(D/rel)` plus the `Lstat`-is-a-directory excuse of `os.MkdirAll` -/
-def mkdir1 (D : Path) (s : FS) (rel : List String) : FS × Bool :=
-  match rel.getLast? with
-  | none => (s, true)
-  | some name =>
-    match resolveA D s D rel.dropLast with
-    | .error _ => (s, false)
-    | .ok pp =>
-      if s.get pp != some .dir || tooLong name then (s, false)
-      else
-        match s.get (pp ++ [name]) with
-        | none => (s.put (pp ++ [name]) .dir, true)
-        | some .dir => (s, true)
-        | some _ => (s, false)
+def isPrefix (a b : Path) : Bool := a.length ≤ b.length && b.take a.length == a
 
-/-- `os.MkdirAll(D/rel)` on a cleaned relative path given in reverse (last component first): Stat fast path,
-lexical parent first, then Mkdir -/
-def mkdirAllRev (D : Path) (s : FS) : List String → FS × Bool
-  | [] => (s, true)
-  | name :: rparent =>
-    let rel := (name :: rparent).reverse
-    match statRel D s rel with
-    | some .dir => (s, true)                       -- fast path
-    | some _ => (s, false)                         -- exists, not a directory
+inductive MkRes
+  | ok (s : FS)          -- the directory exists now
+  | outside (s : FS)     -- errOutsideBaseDirectory: a directory would have been created outside `D`
+  | fail (s : FS)        -- any other error
+
+def MkRes.state : MkRes → FS
+  | .ok s => s
+  | .outside s => s
+  | .fail s => s
+
+/-- `mkdirAllInside(dir, D/rel)` (fix <P6>): like `os.MkdirAll`, one level at a time from `D`; a level that exists
+(`os.Stat`, links followed) must be a directory; a missing level is created with `os.Mkdir` only if its parent, with
+symlinks evaluated (`pathOutsideBaseDirectory`), lies inside `D`.  `done` = the levels below `D` already passed. -/
+def mkdirAllIn (D : Path) (s : FS) : List String → List String → MkRes
+  | _, [] => .ok s
+  | done, c :: rest =>
+    match statRel D s (done ++ [c]) with
+    | some .dir => mkdirAllIn D s (done ++ [c]) rest
+    | some _ => .fail s
     | none =>
-      match mkdirAllRev D s rparent with
-      | (s1, false) => (s1, false)
-      | (s1, true) => mkdir1 D s1 rel
-
-def mkdirAll (D : Path) (s : FS) (rel : List String) : FS × Bool := mkdirAllRev D s rel.reverse
+      match resolveA D s D done with                       -- EvalSymlinks(parent of the level)
+      | .error _ => .outside s
+      | .ok pp =>
+        if !isPrefix D pp then .outside s
+        else if s.get pp != some .dir || tooLong c || (s.get (pp ++ [c])).isSome then .fail s      -- os.Mkdir fails
+        else mkdirAllIn D (s.put (pp ++ [c]) .dir) (done ++ [c]) rest
 
 /-- a tar header: typ r(egular) l(ink: symbolic or hard) d(irectory) o(ther) -/
 structure TarEntry where
@@ -142,7 +139,9 @@ def targetOutsideRoot (cleanDir : List String) (targetAbs : Bool) (targetComps :
   if targetAbs then (cleanComps false targetComps).1 > 0
   else (cleanComps false (cleanDir ++ targetComps)).1 > 0
 
-def isPrefix (a b : Path) : Bool := a.length ≤ b.length && b.take a.length == a
+/-- the text `os.Symlink` gets: `filepath.Join(dir, target)` (cleaned, below `D`) for an absolute target, the raw text otherwise -/
+def entryTarget (e : TarEntry) : Target :=
+  if e.linkAbs then ⟨true, (cleanComps true e.linkComps).2, ""⟩ else ⟨false, e.linkComps, e.linkRaw⟩
 
 inductive Step
   | ok (s : FS)
@@ -158,10 +157,11 @@ def unpackStep (D : Path) (s : FS) (e : TarEntry) : Step :=
   if lstatOk D s rel then .ok s else                                 -- already unpacked
   match e.typ with
   | 'r' =>
-    match mkdirAll D s rel.dropLast with
-    | (s1, false) => .fatal s1
-    | (s1, true) =>
-      match resolveA D s1 D rel.dropLast with                   -- pathOutsideBaseDirectory: EvalSymlinks(parent)
+    match mkdirAllIn D s [] rel.dropLast with
+    | .fail s1 => .fatal s1
+    | .outside s1 => .ok s1                                          -- logged, entry skipped
+    | .ok s1 =>
+      match resolveA D s1 D rel.dropLast with                        -- pathOutsideBaseDirectory: EvalSymlinks(parent)
       | .error _ => .ok s1
       | .ok pp =>
         if !isPrefix D pp then .ok s1 else
@@ -172,18 +172,30 @@ def unpackStep (D : Path) (s : FS) (e : TarEntry) : Step :=
           | none => .ok (s1.put (pp ++ [name]) (.file e.cid))        -- os.WriteFile
           | some _ => .fatal s1
   | 'l' =>
-    let s1 := (mkdirAll D s rel.dropLast).1                          -- failure is logged only (SymlinkErrLog)
-    if targetOutsideRoot cleanSegs.dropLast e.linkAbs e.linkComps then .ok s1 else
-    if e.linkRaw = "" then .ok s1 else
-    let t : Target := if e.linkAbs then ⟨true, (cleanComps true e.linkComps).2, ""⟩        -- filepath.Join(dir, target)
-                      else ⟨false, e.linkComps, e.linkRaw⟩
-    match resolveA D s1 D rel.dropLast with                     -- os.Symlink(targetPath, fullPath)
+    let s1 := (mkdirAllIn D s [] rel.dropLast).state                 -- failure is logged only (SymlinkErrLog)
+    match resolveA D s1 D rel.dropLast with                          -- pathOutsideBaseDirectory(dir, fullPath) (fix <P6>)
     | .error _ => .ok s1
     | .ok pp =>
-      let name := rel.getLast?.getD ""
+      if !isPrefix D pp then .ok s1 else
+      if targetOutsideRoot cleanSegs.dropLast e.linkAbs e.linkComps then .ok s1 else
+      if e.linkRaw = "" then .ok s1 else
+      let name := rel.getLast?.getD ""                               -- os.Symlink(targetPath, fullPath)
       if s1.get pp != some .dir || tooLong name || (s1.get (pp ++ [name])).isSome then .ok s1
-      else .ok (s1.put (pp ++ [name]) (.link t))
-  | _ => .ok s                                                       -- TypeDir: continue; other types: no case
+      else .ok (s1.put (pp ++ [name]) (.link (entryTarget e)))
+  | 'd' =>
+    -- a directory entry makes its path a directory (fix <P7>); every failure is logged and the entry skipped
+    match mkdirAllIn D s [] rel.dropLast with
+    | .fail s1 => .ok s1
+    | .outside s1 => .ok s1
+    | .ok s1 =>
+      match resolveA D s1 D rel.dropLast with                        -- pathOutsideBaseDirectory: EvalSymlinks(parent)
+      | .error _ => .ok s1
+      | .ok pp =>
+        if !isPrefix D pp then .ok s1 else
+        let name := rel.getLast?.getD ""
+        if s1.get pp != some .dir || tooLong name || (s1.get (pp ++ [name])).isSome then .ok s1
+        else .ok (s1.put (pp ++ [name]) .dir)                        -- os.Mkdir
+  | _ => .ok s                                                       -- other types: no case
 
 def unpackPass (D : Path) (s : FS) (es : List TarEntry) : Step :=
   es.foldl (fun st e => match st with | .fatal f => .fatal f | .ok f => unpackStep D f e) (.ok s)
